@@ -183,6 +183,8 @@ def check(ctx, replay=None):
                   "first differing scenario #%s\nimpl : %s\nmodel: %s\n%s" % (k, (a or "")[:400], (b or "")[:400],
                                                                              blocks[int(k)] if k.isdigit() and int(k) < len(blocks) else ""))
     stats = mon.run_monitor(pid, ctx, blocks, trace)
+    if pid == "C12":
+        stats["weather_from_distribution"] = weather_part(ctx, replay)
     nontrivial = set()
     for k, b in enumerate(blocks):
         tr = trace.get(k)
@@ -206,3 +208,85 @@ def check(ctx, replay=None):
         "libstdc++ distributions and std::shuffle are not modelled: their outcomes are read from the hook tape and validated",
         "int overflow is outside the model (counts are unbounded Z; generated counts are small)",
     ]
+
+
+def weather_part(ctx, replay):
+    """Environment::update_weather_from_distribution: implementation against the
+    extracted model (EnvDefs.v) with the logged normal / uniform variates, and
+    the property itself on the implementation: every coefficient in [0, 1], a
+    mean outside [0, 1] and mismatching shapes rejected with invalid_argument."""
+    import random
+    from fractions import Fraction
+    rng = random.Random(ctx.seed * 13 + 1)
+    stats = dict(cases=0, values=0, fallbacks=0, rejected=0)
+    cases = []
+    if replay:
+        cases = [l for l in vc.read_cases(replay) if l.startswith("W ")]
+    else:
+        for _ in range(3000 if ctx.tier == "thorough" else 250):
+            r, c = rng.choice([(1, 1), (1, 4), (3, 1), (2, 3), (3, 3)])
+            sr, sc = (r, c)
+            kind = rng.random()
+            if kind < 0.08:
+                sr, sc = rng.choice([(r + 1, c), (r, c + 1), (c, r) if r != c else (r + 1, c)])
+            means = [rng.choice(["0", "1", "1/2", "1/4", "3/4", "1/8", "7/8", "1/1024", "1023/1024"]) for _ in range(r * c)]
+            if 0.08 <= kind < 0.2:
+                means[rng.randrange(r * c)] = rng.choice(["-1/8", "9/8", "2", "-1", "1025/1024", "-1/1024"])
+            sds = [rng.choice(["1/8", "1/2", "1", "2", "8", "1/64"]) for _ in range(sr * sc)]
+            cases.append("W %d %d %d %d %d %s | %s" % (rng.randint(1, 10 ** 6), r, c, sr, sc, " ".join(means), " ".join(sds)))
+    if not cases:
+        return stats
+    h, err = vc.build_harness("weather", sanitize=(ctx.tier == "thorough"))
+    m, err2 = vc.build_model("weather")
+    if err or err2:
+        ctx.broke("weather harness / model build", (err or "") + (err2 or ""))
+        return stats
+    cp, ip, mp = (os.path.join(ctx.work, x) for x in ("weather.cases", "weather.impl", "weather.model"))
+    open(cp, "w").write("\n".join(cases) + "\n")
+    vc.run_to_file([h, cp], ip)
+    vc.run_to_file([m, cp, ip], mp)
+    n, diffs = vc.diff_outputs(ip, mp)
+    if diffs:
+        k, a, b = diffs[0]
+        ctx.broke("correspondence weather-from-distribution model vs implementation (%d differing cases)" % len(diffs),
+                  "case %s\nimpl : %s\nmodel: %s" % (cases[int(k)], a, b))
+
+    def q(s):
+        num, _, den = s.partition("/")
+
+        def pw(t):
+            if "^" in t:
+                a, _, b = t.partition("^")
+                a = a[:-1]
+                if a.endswith("*"):
+                    a = a[:-1]
+                return (int(a) if a else 1) * 2 ** int(b)
+            return int(t)
+        return Fraction(pw(num), pw(den) if den else 1)
+    out = {}
+    for line in open(ip):
+        k, _, rest = line.rstrip("\n").partition(" ")
+        out.setdefault(int(k), []).append(rest)
+    for k, case in enumerate(cases):
+        t = case.split()
+        r, c, sr, sc = (int(x) for x in t[2:6])
+        means = [Fraction(x) for x in t[6:6 + r * c]]
+        lines = out.get(k, [])
+        res = lines[-1] if lines else ""
+        stats["cases"] += 1
+        bad_shape = (r, c) != (sr, sc)
+        bad_mean = any(m < 0 or m > 1 for m in means)
+        if bad_shape or bad_mean:
+            stats["rejected"] += 1
+            if res != "err:invalid_argument":
+                ctx.violation("C12.weather.%s_not_rejected" % ("shape" if bad_shape else "mean"), "update_weather_from_distribution accepted %s: %s" % ("mismatching shapes" if bad_shape else "a mean outside [0,1]", res[:80]), case)
+            continue
+        if not res.startswith("values"):
+            ctx.violation("C12.weather.valid_rejected", "valid mean/deviation rasters rejected: %s" % res, case)
+            continue
+        vals = [q(x) for x in res.split()[1:]]
+        stats["values"] += len(vals)
+        stats["fallbacks"] += sum(1 for d in (lines[0].split()[1:] if lines else []) if not d.endswith(":-"))
+        if len(vals) != r * c or any(v < 0 or v > 1 for v in vals):
+            ctx.violation("C12.weather.out_of_range", "weather coefficients outside [0,1]: %s" % res[:120], case)
+    return stats
